@@ -14,7 +14,7 @@
 
 use crate::{
     error::{AdapterError, ModelError},
-    util::parse_csv_line,
+    util::{csv_field, parse_csv_line},
     Adapter, Filter, Model, Result,
 };
 use async_trait::async_trait;
@@ -134,16 +134,32 @@ impl Adapter for StringAdapter {
 
         for (ptype, ast) in ast_map {
             for rule in ast.get_policy() {
-                writeln!(policies, "{}, {}", ptype, rule.join(", "))
-                    .map_err(|e| AdapterError(e.into()))?;
+                writeln!(
+                    policies,
+                    "{}, {}",
+                    ptype,
+                    rule.iter()
+                        .map(|v| csv_field(v))
+                        .collect::<Vec<_>>()
+                        .join(", ")
+                )
+                .map_err(|e| AdapterError(e.into()))?;
             }
         }
 
         if let Some(ast_map) = m.get_model().get("g") {
             for (ptype, ast) in ast_map {
                 for rule in ast.get_policy() {
-                    writeln!(policies, "{}, {}", ptype, rule.join(", "))
-                        .map_err(|e| AdapterError(e.into()))?;
+                    writeln!(
+                        policies,
+                        "{}, {}",
+                        ptype,
+                        rule.iter()
+                            .map(|v| csv_field(v))
+                            .collect::<Vec<_>>()
+                            .join(", ")
+                    )
+                    .map_err(|e| AdapterError(e.into()))?;
                 }
             }
         }
